@@ -89,6 +89,9 @@ func frame(dir string, p []byte) []byte {
 
 func Eval(c *core.Ctx, line string) *core.Case {
 	f := strings.Fields(line)
+	if len(f) >= 5 && f[0] == "dhcp.raw" {
+		return evalRaw(c, f) // raw.go: compared with Model.Dhcp4Frame.processRaw
+	}
 	if len(f) != 4 || f[0] != "dhcp.proc" || (f[2] != "c" && f[2] != "s") {
 		return nil
 	}
@@ -278,6 +281,8 @@ func Gen(c *core.Ctx) {
 		}
 		add(c, "dhcp.proc-noise", fmt.Sprintf("dhcp.proc %d %s %s", 1+r.Intn(3), []string{"c", "s"}[r.Intn(2)], core.Hex(p)))
 	}
+	c.Res.Rule += " || dhcp.raw: histories of raw payloads (crafted from the server's current leases: DISCOVER, REQUEST in every state, DECLINE, RELEASE, INFORM, server-to-client types, duplicated / padded / truncated options, wrong op / hlen, long client ids) after an abstract setup history, three configurations x three modes, both directions, IP source and spare buffer capacity varied; every call COMPARED with Model.Dhcp4Frame.processRaw from the implementation's own pre-state (returned error, cursors, lease table, replies, forged DECLINE)"
+	GenRaw(c)
 }
 
 func min(a, b int) int {
